@@ -14,6 +14,15 @@ import (
 // replication goroutines), then driven from one goroutine through dispatchLogs, commitment.match,
 // the commit processing of leaderLoop, appendConfigurationEntry, restoreUserSnapshot, verifyLeader.
 
+// optional hook of /repo's verif_hooks.go (not there yet): has the verify future been handed to the leader
+// loop (vote() sent it on notifyCh) or answered at once?  When it is missing only the counters are observed.
+type verifResolved interface{ Resolved() bool }
+
+func haveVerifResolved() bool {
+	_, ok := interface{}((*raft.VerifVerify)(nil)).(verifResolved)
+	return ok
+}
+
 type lsFuture struct {
 	fid      uint64
 	f        raft.Future
@@ -134,6 +143,7 @@ func lsExec(in []uint64, batching bool) (obs []uint64, info map[string]int) {
 	}
 	emit(append([]uint64{1}, encL()...))
 	var futs []*lsFuture
+	var lastVerify *raft.VerifVerify
 	// collect futures resolved by now (FSM answers arrive asynchronously: wait a little for those expected)
 	// collect futures resolved by now; `expect` = how many resolutions this step must produce
 	// (the FSM goroutine answers asynchronously): poll until they are there (bounded)
@@ -298,6 +308,7 @@ func lsExec(in []uint64, batching bool) (obs []uint64, info map[string]int) {
 		case 6:
 			p++
 			v := n.r.VerifVerifyLeader()
+			lastVerify = v
 			votes, q := v.Counters()
 			reg := n.r.VerifVerifyRegistered(v)
 			ids := make([]uint64, 0, len(reg))
@@ -314,8 +325,40 @@ func lsExec(in []uint64, batching bool) (obs []uint64, info map[string]int) {
 			if q == 1 {
 				now = 1
 			}
+			if vr, ok := interface{}(v).(verifResolved); ok {
+				now = b2u(vr.Resolved()) // read from the future itself when /repo's hooks offer it
+			}
 			o := []uint64{6, uint64(votes), uint64(q), now, uint64(len(ids))}
 			emit(append(o, ids...))
+		case 8:
+			// a replication goroutine's verdict on the last verify future: (*verifyFuture).vote
+			leader, withRes := ev[p+1] != 0, ev[p+2] != 0
+			p += 3
+			if lastVerify == nil {
+				emit([]uint64{8})
+				break
+			}
+			lastVerify.Vote(leader)
+			votes, q := lastVerify.Counters()
+			o := []uint64{8, uint64(votes), uint64(q)}
+			if withRes {
+				// 0 still collecting, 1 handed to the leader loop with a quorum (or answered at once), 2 handed over on a denial:
+				// what the leader loop reads off the future it receives (votes < quorumSize => ErrNotLeader)
+				res := uint64(9)
+				if vr, ok := interface{}(lastVerify).(verifResolved); ok {
+					switch {
+					case !vr.Resolved():
+						res = 0
+					case votes >= q:
+						res = 1
+					default:
+						res = 2
+					}
+				}
+				o = append(o, res)
+			}
+			info["verify_votes"]++
+			emit(o)
 		case 7:
 			p++
 			emit([]uint64{7, b2u(n.r.VerifConfigGateOpen())})
